@@ -39,8 +39,10 @@ TNum(c, i) ==
 (* centre of copy k of row i, numerator over CD *)
 Centre(c, i, k) == IF c.smear = 0 THEN PathNum(c, i)
                    ELSE PathNum(c, i) * NS(c) + k * (PathNum(c, i + 1) - PathNum(c, i))
-(* triangle profile at frequency f (units u) for a centre cn / CD, numerator over CD *)
-FPn(c, f, cn) == Max2(0, c.wd * CD(c) - Abs(f * CD(c) - cn))
+(* frequency profile at frequency f (units u) for a centre cn / CD, numerator over CD: an ASYMMETRIC triangle (slope 1
+   above the centre, slope 2 below it), so that f and the centre cannot be exchanged unnoticed *)
+FPn(c, f, cn) == LET d == f * CD(c) - cn IN
+                 IF d >= 0 THEN Max2(0, c.wd * CD(c) - d) ELSE Max2(0, c.wd * CD(c) + 2 * d)
 (* pixel (i, j): numerator over Den(c) *)
 Pix(c, i, j) ==
     LET perK(k) == LET perM(m) == LET f == j * FQ + m * (FQ \div FS(c)) IN FPn(c, f, Centre(c, i, k)) * BP(c, f)
